@@ -249,6 +249,7 @@ PROPS = {
                       "object kind tears down only at zero (8 kinds); replacement sites release the old referent.",
         "level_note": "vtable slots are resolved from static initialisers; counted kinds are those whose addref implementation calls the raise primitive",
         "rules": [
+            {"run": rules_ref.run_lowerfail, "floor": 1},
             {"run": rules_ref.run_reforder, "floor": 1, "use_anchor_files": True},
             {"run": rules_ref.run_refwrite, "floor": 10},
             {"run": rules_ref.run_refshape, "floor": 6},
